@@ -503,9 +503,10 @@ class Fw:
         return None
 
     def report_violation(self, harness, root, defines, msg, inputs, rep):
-        os.makedirs(os.path.join(VERIF, 'replays'), exist_ok=True)
+        rdir = os.environ.get('VERIF_REPLAY_DIR', os.path.join(VERIF, 'replays'))
+        os.makedirs(rdir, exist_ok=True)
         key = hashlib.sha1(repr((root, msg, inputs, list(defines))).encode()).hexdigest()[:10]
-        path = os.path.join(VERIF, 'replays', '%s-%s.json' % (self.prop, key))
+        path = os.path.join(rdir, '%s-%s.json' % (self.prop, key))
         json.dump(dict(property=self.prop, harness=harness, root=root, defines=list(defines), inputs=inputs, check=msg, how=rep.get('how'),
                        real_output=rep.get('checkfails'), stderr_tail=rep.get('stderr_tail')), open(path, 'w'), indent=1)
         with self.lock:
@@ -581,8 +582,9 @@ class Fw:
         cov.update(self.extra_cov)
         ev = dict(property_id=self.prop, tier=self.tier, seed=self.seed, level='model_checking', coverage=cov, assumptions=self.assumptions,
                   wall_s=round(wall, 1), violations=len(self.violations))
-        os.makedirs(os.path.join(VERIF, 'evidence'), exist_ok=True)
-        json.dump(ev, open(os.path.join(VERIF, 'evidence', self.prop + '.json'), 'w'), indent=1)
+        evdir = os.environ.get('VERIF_EVIDENCE_DIR', os.path.join(VERIF, 'evidence'))
+        os.makedirs(evdir, exist_ok=True)
+        json.dump(ev, open(os.path.join(evdir, self.prop + '.json'), 'w'), indent=1)
         self.log('obligations %d discharged %d; witnesses %d/%d; differential runs %d (%d disagreements); replays %d; solver %.0fs; wall %.0fs'
                  % (len(obl), len(discharged), cov['witnesses']['reached'], cov['witnesses']['total'], self.diff_runs, len(self.diff_disagreements),
                     len(self.replays), self.solver_wall, wall))
